@@ -1005,7 +1005,7 @@ Example log_entry_alone :
 Proof. vm_compute. reflexivity. Qed.
 
 (* lines outside the modelled alphabet are rejected, not guessed *)
-Example unmodelled_line : ign_line (str "a b") = None /\ ign_line (str "d*/") = None.
+Example unmodelled_line : ign_line (str "a[b") = None /\ ign_line (str "d*/") = None.
 Proof. vm_compute. split; reflexivity. Qed.
 
 (* the side condition of [tracked_visible]: an (ill-formed) staged path "d/"
